@@ -398,6 +398,8 @@ class Exec:
                 return ("map", ("bv", self.bound + 1), args[0])  # [i for i in range(..)]
         if f == ("sym", "int") and len(args) == 1 and is_const(args[0]) and type(args[0][1]) is int:
             return args[0]
+        if f == ("sym", "sum") and len(args) == 1 and args[0][0] in ("list", "tuple", "gen") and all(is_const(x) and type(x[1]) is int for x in args[0][1]) and not kwargs:
+            return const(sum(x[1] for x in args[0][1]))
         if f == ("sym", "divmod") and len(args) == 2 and not kwargs:
             return ("tuple", (self.binop("//", args[0], args[1]), self.binop("%", args[0], args[1])))
         if f in (("sym", "all"), ("sym", "any")) and len(args) == 1 and args[0][0] in ("gen", "list", "tuple") and not kwargs:
@@ -570,6 +572,10 @@ class Exec:
                         more = [arg]
                     e2 = dict(env)
                     e2[name] = ("list", cur[1] + tuple(more))
+                    return cont(e2)
+                if meth == "append" and cur[0] in ("havoc", "after", "appended") and len(s.value.args) == 1 and not s.value.keywords:
+                    e2 = dict(env)
+                    e2[name] = ("appended", cur, self.ev(s.value.args[0], env))  # a list of unknown contents, grown by one
                     return cont(e2)
                 self.fail(s, "method called for its effect on a local value")
             v = self.ev(s.value, env)
@@ -904,6 +910,15 @@ def parse_expr(src, env=None):
     tree = ast.parse("", mode="exec")
     ex = Exec(tree, "<expected>")
     return ex.ev(ast.parse(src, mode="eval").body, dict(env or {}))
+
+
+def _subst_value(v, table):
+    """v with the sub-values in `table` replaced."""
+    if v in table:
+        return table[v]
+    if isinstance(v, tuple):
+        return tuple(_subst_value(x, table) if isinstance(x, tuple) else x for x in v)
+    return v
 
 
 def find_nodes(v, pred, acc=None):
